@@ -57,6 +57,7 @@ Inductive extra :=
 | XF32s (bucket key : bytes) (vals : list N)       (* a float32 array persisted under a reserved key (thresholds, centroids) *)
 | XOracle (qi : N) (dists : list (bytes * N))      (* for request number qi: harness-side float64 reference distance (bits) per candidate id *)
 | XLogs (l : list (N * N * N))                     (* (corpus size, document frequency, float64 bits of log10(size/(df+1))) *)
+| XCold (qs : list (request * qout))                (* the same requests answered by a fresh instance (cold cache) over a copy of the file *)
 | XNote (n : N).
 
 Record step := mkStep {
